@@ -78,10 +78,20 @@ namespace cnl {
                     // -ve
                     *first = '-';
 
-                    // implementation does not support the most negative number
-                    CNL_ASSERT(-std::numeric_limits<decltype(-value)>::max() <= value);
+                    // The last digit is split off before the sign is changed:
+                    // the most negative number cannot be negated, its quotient can.
+                    auto const quotient = value / base;
+                    auto* const last_digit_ptr =
+                            quotient ? to_chars_natural(first + 1, last, -quotient, base) : first + 1;
 
-                    return to_chars_positive(first + 1, last, -value, base);
+                    if (last_digit_ptr == last || last_digit_ptr == nullptr) {
+                        return std::to_chars_result{last, std::errc::value_too_large};
+                    }
+
+                    auto const remainder = value - (quotient * base);
+                    *last_digit_ptr = itoc(static_cast<int>(-remainder));
+
+                    return std::to_chars_result{last_digit_ptr + 1, std::errc{}};
                 }
             }
 
